@@ -202,3 +202,82 @@ func ZZ_C14_randheight() {
 	h := db.randHeight__orig()
 	vpAssert(h >= 1 && h <= tMaxHeight, "randheight-range")
 }
+
+// ---- C14-conc: readers and iterators beside one writer ----
+// Interleaving is at lock granularity: every RWMutex operation is a
+// scheduling point, each API call is one critical section. The reader must
+// never crash, never see keys go backwards on Next, and only see pairs that
+// some Put stored.
+func ZZ_C14_conc() {
+	db := New(comparer.DefaultComparer, 0)
+	// some initial content
+	db.Put([]byte{10}, []byte{1})
+	db.Put([]byte{20}, []byte{2})
+	type pair struct{ k, v byte }
+	stored := []pair{{10, 1}, {20, 2}}
+	nw := zzConcWrites
+	wk := make([]byte, nw)
+	wv := make([]byte, nw)
+	wdel := make([]bool, nw)
+	for i := 0; i < nw; i++ {
+		wk[i] = vpNondetU8()
+		wv[i] = vpNondetU8()
+		wdel[i] = vpChoose(2) == 1
+		if !wdel[i] {
+			stored = append(stored, pair{wk[i], wv[i]})
+		}
+	}
+	go func() {
+		for i := 0; i < nw; i++ {
+			if wdel[i] {
+				db.Delete([]byte{wk[i]})
+			} else {
+				db.Put([]byte{wk[i]}, []byte{wv[i]})
+			}
+		}
+	}()
+	// reader: one iterator, a few moves, plus point reads
+	it := db.NewIterator(nil)
+	var last int
+	haveLast := false
+	for step := 0; step < zzConcMoves; step++ {
+		var ok bool
+		next := false
+		switch vpChoose(3) {
+		case 0:
+			ok = it.Next()
+			next = true
+		case 1:
+			ok = it.Seek([]byte{vpNondetU8()})
+		default:
+			ok = it.First()
+		}
+		if ok {
+			k, v := it.Key(), it.Value()
+			vpAssert(len(k) == 1 && len(v) == 1, "yielded-pair-shape")
+			was := false
+			for _, p := range stored {
+				was = vpOr(was, vpAnd(p.k == k[0], p.v == v[0]))
+			}
+			vpAssert(was, "yielded-pair-was-stored")
+			if next && haveLast {
+				vpAssert(int(k[0]) > last, "next-yields-strictly-larger-key")
+			}
+			last, haveLast = int(k[0]), true
+		} else {
+			haveLast = false
+		}
+		if vpChoose(2) == 1 {
+			q := vpNondetU8()
+			v, err := db.Get([]byte{q})
+			if err == nil {
+				was := false
+				for _, p := range stored {
+					was = vpOr(was, vpAnd(p.k == q, len(v) == 1 && p.v == v[0]))
+				}
+				vpAssert(was, "get-returns-a-stored-value")
+			}
+		}
+	}
+	vpJoin()
+}
